@@ -548,7 +548,7 @@ func genDoc(o DocOpts) *rapid.Generator[Doc] {
 // delta time and crd refuses it; C06 and C08 build such pieces on purpose, as
 // classes of their own where a refusal is accepted.
 func capTotal(d *Doc) {
-	limit := big.NewRat(1<<28-1<<16, 3840) // in whole notes
+	limit := big.NewRat(1<<28-1<<16, 960) // in units of the values (quarter notes)
 	sum := new(big.Rat)
 	for i, in := range d.Insts {
 		for _, v := range in.Values {
